@@ -42,6 +42,9 @@ BRANCH_PATTERN = r"""
 
 BRANCH_RE = re.compile(BRANCH_PATTERN, flags=re.VERBOSE)
 
+# "<orig> -> <path>" of git status, where either path may be quoted
+RENAME_RE = re.compile(r'^\s*("(?:[^"\\]|\\.)*"|.*?) -> ("(?:[^"\\]|\\.)*"|.*)$')
+
 
 VCS_SUBCOMMANDS_BY_NAME = {
     'git': {
@@ -90,13 +93,28 @@ def _unquote_path(filepath: str) -> str:
     'a.txt'
     """
     filepath = filepath.strip()
-    if len(filepath) >= 2 and filepath.startswith('"') and filepath.endswith('"'):
-        try:
-            raw = filepath[1:-1].encode("ascii").decode("unicode_escape")
-            return raw.encode("latin-1").decode("utf-8")
-        except UnicodeError:
-            return filepath
-    return filepath
+    if not (len(filepath) >= 2 and filepath.startswith('"') and filepath.endswith('"')):
+        return filepath
+
+    # NOTE: with core.quotePath=false non-ascii characters are not escaped,
+    #   the escapes are therefore resolved on the utf-8 encoded bytes.
+    escapes = {'a': 7, 'b': 8, 't': 9, 'n': 10, 'v': 11, 'f': 12, 'r': 13}
+    quoted  = filepath[1:-1]
+    raw     = bytearray()
+    idx     = 0
+    while idx < len(quoted):
+        char = quoted[idx]
+        if char == "\\" and re.match(r"[0-7]{3}", quoted[idx + 1 : idx + 4]):
+            raw.append(int(quoted[idx + 1 : idx + 4], 8) & 0xFF)
+            idx += 4
+        elif char == "\\" and idx + 1 < len(quoted):
+            next_char = quoted[idx + 1]
+            raw.extend(bytes([escapes[next_char]]) if next_char in escapes else next_char.encode("utf-8"))
+            idx += 2
+        else:
+            raw.extend(char.encode("utf-8"))
+            idx += 1
+    return raw.decode("utf-8", errors="replace")
 
 
 class VCSAPI:
@@ -174,7 +192,10 @@ class VCSAPI:
             # NOTE: git porcelain lines are "XY <path>" (X or Y may be a space),
             #   hg lines are "X <path>". Renames are "XY <orig> -> <path>".
             status, filepaths = line[:2].strip(), line[2:]
-            for filepath in filepaths.split(" -> "):
+            # NOTE: only renames/copies have two paths (a name may contain " -> ")
+            is_rename    = status[:1] in ("R", "C") and self.name == 'git'
+            rename_match = RENAME_RE.match(filepaths) if is_rename else None
+            for filepath in rename_match.groups() if rename_match else [filepaths]:
                 status_items.append((status, _unquote_path(filepath)))
 
         dirty_files: typ.List[str] = []
